@@ -12,6 +12,7 @@
 #include "c20_calls2.inc"
 #include "c20_ret.inc"
 #include "c20_lang.inc"
+#include "c20_addr.inc"
 
 using namespace c20;
 
@@ -33,7 +34,7 @@ static std::vector<std::vector<i64>> read_lists(Toks& in)
 }
 
 // The op table is split into groups so that props/C20/pcxx.py can compile them as separate translation units in
-// parallel (-DC20_NPARTS=6 -DC20_PART=k; one single TU takes ~1 minute).  Without -DC20_NPARTS everything is one
+// parallel (-DC20_NPARTS=7 -DC20_PART=k; one single TU takes ~1 minute).  Without -DC20_NPARTS everything is one
 // translation unit.
 namespace c20 {
 bool run_part0(std::string const& op, Toks& in, Out& impl, Out& ref);
@@ -42,6 +43,7 @@ bool run_part2(std::string const& op, Toks& in, Out& impl, Out& ref);
 bool run_part3(std::string const& op, Toks& in, Out& impl, Out& ref);
 bool run_part4(std::string const& op, Toks& in, Out& impl, Out& ref);
 bool run_part5(std::string const& op, Toks& in, Out& impl, Out& ref);
+bool run_part6(std::string const& op, Toks& in, Out& impl, Out& ref);
 } // namespace c20
 
 #if !defined(C20_NPARTS) || C20_PART == 0
@@ -484,6 +486,20 @@ bool c20::run_part5(std::string const& op, Toks& in, Out& impl, Out& ref)
 }
 #endif
 
+#if !defined(C20_NPARTS) || C20_PART == 6
+bool c20::run_part6(std::string const& op, Toks& in, Out& impl, Out& ref)
+{
+    if (op == "amp") {
+        // object identity for an element / callable type with an overloaded unary operator& (c20_addr.inc)
+        Toks copy = in;
+        bool a    = addr::run_amp<EtlLib>(in, impl);
+        bool b    = addr::run_amp<StdLib>(copy, ref);
+        return a && b;
+    }
+    return false;
+}
+#endif
+
 #if !defined(C20_NPARTS) || C20_PART == 0
 bool vh::run_case(std::string const& op, Toks& in, Out& impl, Out& ref)
 {
@@ -492,7 +508,8 @@ bool vh::run_case(std::string const& op, Toks& in, Out& impl, Out& ref)
         || c20::run_part2(op, in, impl, ref)
         || c20::run_part3(op, in, impl, ref)
         || c20::run_part4(op, in, impl, ref)
-        || c20::run_part5(op, in, impl, ref);
+        || c20::run_part5(op, in, impl, ref)
+        || c20::run_part6(op, in, impl, ref);
 }
 
 VERIF_MAIN()
